@@ -558,8 +558,10 @@ Section Model.
   | RRes (k : nat).        (* the node returned by step k (or its .channel) *)
 
   Inductive step :=
-  | SOp (e : entry) (recv : ref) (others : list ref) (pl : bool)
-  | SSlice (recv a b c : ref) (pl : bool)      (* recv[a:b:c], at least one member channel-like *)
+  | SOp (e : entry) (recv : ref) (others : list ref) (pl : nat)
+      (* pl: 0 = the node is not pulled; S k = pulled, and if its own run raises, the failed flag is
+         cleared (the documented recovery) and it is pulled again, up to k times *)
+  | SSlice (recv a b c : ref) (pl : nat)       (* recv[a:b:c], at least one member channel-like *)
   | SUnsup (recv other : ref).                 (* raw + x etc.: no reflected dunder exists *)
 
   Inductive resolved := ResChan (c : chan) | ResRaw (v : val) | ResAmbiguous | ResMissing.
@@ -692,8 +694,8 @@ Section Model.
         end
     end.
 
-  Definition step_pull (s : step) : bool :=
-    match s with SOp _ _ _ p => p | SSlice _ _ _ _ p => p | SUnsup _ _ => false end.
+  Definition step_pull (s : step) : nat :=
+    match s with SOp _ _ _ p => p | SSlice _ _ _ _ p => p | SUnsup _ _ => 0 end.
 
   (* ---- observations ------------------------------------------------------------------------ *)
   Variable vobs : val -> obs.
@@ -740,6 +742,24 @@ Section Model.
     | PUp => OL [OS "up"]
     end.
 
+  (* node.failed = False: the documented way to make a failed node runnable again *)
+  Definition clear_failed (st : state) (n : nat) : state :=
+    match nth_error (s_nodes st) n with
+    | Some r => set_node st n (mkN (n_label r) (n_cls r) (n_in r) (n_out r) false)
+    | None => st
+    end.
+
+  (* pull again after clearing the flag, as long as the node's own run keeps raising *)
+  Fixpoint retries (k : nat) (st : state) (n : nat) : state * list obs :=
+    match k with
+    | O => (st, [])
+    | S k' =>
+        match pull (clear_failed st n) n with
+        | (st1, POwn x) => let '(st2, l) := retries k' st1 n in (st2, pres_obs (POwn x) :: l)
+        | (st1, p) => (st1, [pres_obs p])
+        end
+    end.
+
   (* run a whole case: steps in order; after a pull that raised the scenario stops *)
   Fixpoint exec (st : state) (results : list (option nat)) (stopped : bool) (ss : list step)
     : list obs :=
@@ -756,14 +776,25 @@ Section Model.
               let cn := match nth_error (s_nodes st1) n with Some r => cname (n_cls r) | None => "?" end in
               let head := OL [OS "node"; OS cn; on k] in
               let wiring := node_obs st1 results1 n in
-              if step_pull s then
-                let '(st2, p) := pull st1 n in
-                let bad := match p with PVal _ => false | _ => true end in
-                OL [head; OL (map nobs noms); on (nchildren st1); wiring; pres_obs p]
-                  :: exec st2 results1 bad rest
-              else
-                OL [head; OL (map nobs noms); on (nchildren st1); wiring; OL []]
-                  :: exec st1 results1 false rest
+              match step_pull s with
+              | S k =>
+                  let '(st2, p) := pull st1 n in
+                  match p with
+                  | PVal _ =>
+                      OL [head; OL (map nobs noms); on (nchildren st1); wiring; pres_obs p]
+                        :: exec st2 results1 false rest
+                  | POwn x =>
+                      let '(st3, rs) := retries k st2 n in
+                      OL [head; OL (map nobs noms); on (nchildren st1); wiring; OL (OS "own" :: OS x :: rs)]
+                        :: exec st3 results1 true rest
+                  | PUp =>
+                      OL [head; OL (map nobs noms); on (nchildren st1); wiring; pres_obs p]
+                        :: exec st2 results1 true rest
+                  end
+              | O =>
+                  OL [head; OL (map nobs noms); on (nchildren st1); wiring; OL []]
+                    :: exec st1 results1 false rest
+              end
           | ERaise x =>
               OL [OL [OS "raise"; OS x]; OL (map nobs noms); on (nchildren st1); OL []; OL []]
                 :: exec st1 (results ++ [None]) false rest
